@@ -31,6 +31,7 @@
 #include "stir/recon_buildblock/BinNormalisationFromProjData.h"
 #include "stir/recon_buildblock/TrivialBinNormalisation.h"
 #include <cmath>
+#include <sstream>
 #include <cstring>
 #include <map>
 #include <tuple>
@@ -370,6 +371,62 @@ run_histogram(const Plan& p, sim::Result& res)
       std::vector<std::pair<double, double>> fr;
       for (size_t f = 0; f + 1 < bounds.size(); ++f)
         fr.push_back(std::make_pair(bounds[f], bounds[f + 1]));
+      std::vector<std::map<BinKey, float>> want_frames = per_frame;
+      TimeFrameDefinitions tfd(fr);
+      // in half of the runs the frames come from a frame-definition text file ("<count> <duration>" lines, count 0 = gap):
+      // a gap before the first frame, durations printed with 17 digits, equal frames as one line with a count
+      if (r.chance(0.5))
+        {
+          fr.clear();
+          std::ostringstream text;
+          double t = 0;
+          if (r.chance(0.4) && bounds.size() > 1 && bounds[1] > 0.02)
+            {
+              const double gap = bounds[1] * 0.5 * r.unit();
+              char buf[64];
+              snprintf(buf, sizeof buf, "0 %.17g\n", gap);
+              text << buf;
+              t += gap;
+            }
+          for (size_t f = 0; f + 1 < bounds.size(); ++f)
+            {
+              const double dur = bounds[f + 1] - t;
+              if (!(dur > 0))
+                continue;
+              const int count = r.chance(0.25) ? 2 : 1;
+              char buf[64];
+              snprintf(buf, sizeof buf, "%d %.17g\n", count, dur / count);
+              text << buf;
+              for (int k = 0; k < count; ++k)
+                {
+                  fr.push_back(std::make_pair(t, t + dur / count)); // the sums the reader forms
+                  t += dur / count;
+                }
+            }
+          if (fr.empty())
+            return;
+          const std::string fdef = sim::scratch_dir() + "/frames.fdef";
+          {
+            FILE* f = fopen(fdef.c_str(), "w");
+            if (!f)
+              throw std::runtime_error("harness: cannot write the frame definition file");
+            fputs(text.str().c_str(), f);
+            fclose(f);
+          }
+          tfd = TimeFrameDefinitions(fdef);
+          if (tfd.get_num_frames() != fr.size())
+            sim::fail(cls + ":fdef:number_of_frames", "frame definition file of %zu frames read as %u frames:\n%s", fr.size(), tfd.get_num_frames(),
+                      text.str().c_str());
+          want_frames.clear();
+          for (size_t f = 0; f < fr.size(); ++f)
+            {
+              if (tfd.get_start_time((unsigned)f + 1) != fr[f].first || tfd.get_end_time((unsigned)f + 1) != fr[f].second)
+                sim::fail(cls + ":fdef:frame_times", "frame %zu of the frame definition file is [%.17g, %.17g), the file says [%.17g, %.17g):\n%s", f + 1,
+                          tfd.get_start_time((unsigned)f + 1), tfd.get_end_time((unsigned)f + 1), fr[f].first, fr[f].second, text.str().c_str());
+              want_frames.push_back(expected_histogram(w, *out_pdi, fr[f].first, fr[f].second, o));
+            }
+          sim::probe("frames_from_fdef_file");
+        }
       shared_ptr<lm::SimListModeData> src(new lm::SimListModeData(w.scanner_pdi, w.script, w.has_delayeds, o.eof_after));
       Lm2P conv;
       conv.set_input_data(src);
@@ -381,7 +438,7 @@ run_histogram(const Plan& p, sim::Result& res)
       conv.set_num_segments_in_memory((int)r.range(1, nseg));
       conv.set_num_tof_bins_in_memory((int)r.range(1, ntof));
       conv.set_max_segment(o.max_segment);
-      conv.set_time_frame_definitions(TimeFrameDefinitions(fr));
+      conv.set_time_frame_definitions(tfd);
       if (conv.set_up() != Succeeded::yes)
         throw std::runtime_error("harness: LmToProjData::set_up failed");
       conv.process_data();
@@ -408,7 +465,7 @@ run_histogram(const Plan& p, sim::Result& res)
           if (!pd)
             sim::fail(cls + ":multi_frame_file_missing", "the run over %zu frames left no readable file for frame %zu (%s)", fr.size(), f + 1,
                       why.c_str());
-          compare_hist(to_map(*pd), per_frame[f], cls + ":multi_frame_run", "frame of a multi-frame run (file output)");
+          compare_hist(to_map(*pd), want_frames[f], cls + ":multi_frame_run", "frame of a multi-frame run (file output)");
         }
       sim::probe("multi_frame_run_checked");
     }
